@@ -29,7 +29,7 @@ Section HistOps.
   Definition OKn (o : op HTn) : Prop := okb o = true.
 
   Lemma OKn_OpOK o : OKn o -> OpOK HTn (okT md md_is_nil n) o.
-  Proof. unfold OKn, cop_ok_b. intros E. apply andb_true_iff in E as [E _]. now apply op_ok_OpOK. Qed.
+  Proof. unfold OKn, cop_ok_b. intros E. now apply op_ok_OpOK. Qed.
 
   Theorem history_roundtrip_concrete (o : op HTn) (m : md) (cs : list (hcmd (op HTn) md)) :
     hist_ok (init o m) cs = true ->
